@@ -645,7 +645,15 @@ func (p *prog) opRefusedThenPut() {
 			break
 		}
 	}
+	before := p.model[k.key]
 	p.doPut(k, e, randBytes(r, 1+r.Intn(3000)), few, r.Intn(2))
+	if p.w.cf.store == "sidecar" && before != nil && p.model[k.key] == before {
+		// the follow-up upload did not replace the object. With the sidecar store the refused upload may have
+		// changed the existing object's attributes (known finding, reported above with its own signature): its
+		// state is unknown from here on, later reads of it would only repeat that finding under other signatures
+		p.histOf(k.key).absorb(before)
+		p.drop(k.key)
+	}
 }
 
 func (p *prog) doPut(k keyT, e encT, body []byte, hs *hdrSet, g int) {
